@@ -32,6 +32,10 @@ type Commander struct {
 	lastTXID   *big.Int
 	referencer *Referencer
 	mu         sync.Mutex
+	// sequenceMu makes "allocate a transaction id, chain the log, hand it to
+	// the batcher" one critical section: logs must reach the store in id order
+	// and transaction ids must follow the log order.
+	sequenceMu sync.Mutex
 
 	lastLog *ledger.ChainedLog
 	monitor bus.Monitor
@@ -144,6 +148,10 @@ func (commander *Commander) exec(ctx context.Context, parameters Parameters, scr
 		}
 		verifhook.Yield(ctx, "ran")
 
+		if !parameters.DryRun {
+			commander.sequenceMu.Lock()
+			defer commander.sequenceMu.Unlock()
+		}
 		tx := ledger.NewTransaction().
 			WithPostings(result.Postings...).
 			WithMetadata(result.Metadata).
@@ -157,7 +165,7 @@ func (commander *Commander) exec(ctx context.Context, parameters Parameters, scr
 			log = log.WithIdempotencyKey(parameters.IdempotencyKey)
 		}
 
-		return executionContext.AppendLog(ctx, log)
+		return executionContext.appendLog(ctx, log)
 	})
 }
 
